@@ -757,7 +757,8 @@ func GenC13x(rng *rand.Rand, thorough bool, emit func(*Sx)) {
 // GenC17conv: backend errors at every callback through the real server.
 func GenC17conv(rng *rand.Rand, thorough bool, emit func(*Sx)) {
 	errs := []BErr{rejectErr(), BSmtp(451, [3]int{4, 3, 0}, "try again later"), BSmtp(554, [3]int{0, 0, 0}, "no enhanced code given"),
-		BSmtp(550, [3]int{5, 1, 1}, "line one\nline two"), BPlain("plain failure")}
+		BSmtp(550, [3]int{5, 1, 1}, "line one\nline two"), BPlain("plain failure"), BPlain("timeout: upstream did not answer"),
+		BPlain("context deadline exceeded"), BSmtp(452, [3]int{4, 2, 2}, "mailbox 100% full (%s)")}
 	for ei, e := range errs {
 		for _, greet := range []string{"EHLO", "LHLO", "HELO"} {
 			lmtp := greet == "LHLO"
